@@ -687,7 +687,7 @@ impl Property for C10 {
         Meta {
             level: "exploration",
             rule: "each run is a seeded history of 3-16 int/float type declarations (widths 8/16/32/64 and 0,1,7,24,33,48,63,65,128,2^31), value definitions carrying types through result types, and OpConstant/OpSpecConstant/OpSwitch consumers on declared, undeclared and forward-declared ids (ids unique), optionally with one literal-truncation fault; it is parsed alone (judged against the reference type context) and under one of four schedules involving a second binary that declares the same ids with other widths (after it, nested inside its k-th callback, it nested inside the history's k-th callback, one consumer reused); abstract trace = (faults, outcome class, per consumer (width class, opcode), schedule); non-trivial = >= 3 instructions and >= 1 literal consumer delivered",
-            lanes: "float declarations with the optional FPEncoding operand; dense ids 1..300/4200/66000 all typed 64-bit with a consumer at every 2^k-1, 2^k, 2^k+1 (1/250 runs); value definitions by any of the value-defining opcodes; bystander instructions (capabilities, extensions, functions, labels, ...) in between; rare giant histories (all 363 distinct int/float types with the 64-bit float last; 65k+ tracked ids before a 64-bit type, value, literals and switch); ids defined by other instructions and near-miss ids (one bit away from a typed id) as result types / selectors; header bound 0 / 1 / too small / 2^32-1 in half of the histories; annotations in front aimed at ids defined later; value definitions whose operands all carry two-word types, consumed by a switch at once",
+            lanes: "float declarations with the optional FPEncoding operand; dense ids 1..300/4200/66000 all typed 64-bit with a consumer at every 2^k-1, 2^k, 2^k+1 (1/250 runs); value definitions by any of the value-defining opcodes; bystander instructions (capabilities, extensions, functions, labels, ...) in between; rare giant histories (all 363 distinct int/float types with the 64-bit float last; 65k+ tracked ids before a 64-bit type, value, literals and switch); ids defined by other instructions and near-miss ids (one bit away from a typed id) as result types / selectors; header bound 0 / 1 / too small / 2^32-1 in half of the histories; annotations in front aimed at ids defined later; value definitions whose operands all carry two-word types, consumed by a switch at once; sparse-id lane (thousands of type ids scattered over the 32-bit space, each consumed by a constant)",
             triple_measure: "(literal width class 1/2/unsupported, consumer opcode, schedule)",
             item_measure: "opcodes delivered and matched",
             assumptions: &[
